@@ -52,11 +52,24 @@ fn frame_len(l: &PubLog, part: usize, off: usize) -> i32 {
 fn frame_type(l: &PubLog, part: usize, off: usize) -> u16 {
     u16::from_le_bytes([l.mem.0[part * TL + off + 6], l.mem.0[part * TL + off + 7]])
 }
-fn payload_eq(l: &PubLog, part: usize, off: usize, src: &[u8; 96], len: usize) -> bool {
+/// bytes a message of `len` occupies in the log (MTU payload 32: 33..=64 bytes take two frames)
+fn need(len: i32) -> i32 {
+    if len <= 32 { align32(32 + len as i64) as i32 } else { 64 + align32(32 + (len - 32) as i64) as i32 }
+}
+/// the message `src[..len]` sits at `off` of partition `part` as one or two committed frames
+fn message_at(l: &PubLog, part: usize, off: usize, src: &[u8; 96], len: i32) -> bool {
+    if len <= 32 {
+        frame_len(l, part, off) == 32 + len && payload_eq(l, part, off, src, 0, len as usize)
+    } else {
+        frame_len(l, part, off) == 64 && frame_len(l, part, off + 64) == 32 + (len - 32)
+            && payload_eq(l, part, off, src, 0, 32) && payload_eq(l, part, off + 64, src, 32, (len - 32) as usize)
+    }
+}
+fn payload_eq(l: &PubLog, part: usize, off: usize, src: &[u8; 96], from: usize, len: usize) -> bool {
     let mut ok = true;
     let mut j = 0;
     while j < len {
-        ok &= l.mem.0[part * TL + off + 32 + j] == src[j];
+        ok &= l.mem.0[part * TL + off + 32 + j] == src[from + j];
         j += 1;
     }
     ok
@@ -97,7 +110,7 @@ macro_rules! preempt {
             let part = l.partition(); // 1
             let next = (part + 1) % 3;
             let t = l.term_id();
-            let (need_a, need_b) = (align32(32 + la as i64) as i32, align32(32 + lb as i64) as i32);
+            let (need_a, need_b) = (need(la), need(lb));
             let fits_both = tail + need_a + need_b <= TL as i32;
             if fits_both {
                 // both accepted, positions distinct and equal to their frame ends; frames disjoint, intact, gap-free
@@ -106,8 +119,7 @@ macro_rules! preempt {
                 let off_a = if a_first { tail } else { tail + need_b };
                 let off_b = if a_first { tail + need_a } else { tail };
                 assert!(ra == TL as i64 + (off_a + need_a) as i64 && rb == TL as i64 + (off_b + need_b) as i64, "C02: returned positions are consistent with frame placement");
-                assert!(frame_len(&l, part, off_a as usize) == 32 + la && frame_len(&l, part, off_b as usize) == 32 + lb, "C02: each message occupies its own committed frame");
-                assert!(payload_eq(&l, part, off_a as usize, &src_a, la as usize) && payload_eq(&l, part, off_b as usize, &src_b, lb as usize), "C02: both payloads intact, no overlap");
+                assert!(message_at(&l, part, off_a as usize, &src_a, la) && message_at(&l, part, off_b as usize, &src_b, lb), "C02: each message occupies its own committed frame(s) with intact bytes, no overlap");
                 assert!(l.raw_tail_of(part) == pack_tail(t, tail + need_a + need_b), "C02: the tail covers exactly both frames (gap-free)");
                 assert!(l.active_count() == 1, "C02: no rotation while the term has room");
                 kani::cover!(a_first, "A frame placed first");
@@ -134,19 +146,34 @@ macro_rules! preempt {
                 // whoever was accepted has an intact frame where its position says
                 if ra > 0 {
                     let (p, off) = if ra <= (2 * TL) as i64 { (part, ra - TL as i64 - need_a as i64) } else { (next, ra - 2 * TL as i64 - need_a as i64) };
-                    assert!(off >= 0 && frame_len(&l, p, off as usize) == 32 + la && payload_eq(&l, p, off as usize, &src_a, la as usize), "C02: A's accepted message is intact at the position reported");
+                    assert!(off >= 0 && message_at(&l, p, off as usize, &src_a, la), "C02: A's accepted message is intact at the position reported");
                 }
                 if rb > 0 {
                     let (p, off) = if rb <= (2 * TL) as i64 { (part, rb - TL as i64 - need_b as i64) } else { (next, rb - 2 * TL as i64 - need_b as i64) };
-                    assert!(off >= 0 && frame_len(&l, p, off as usize) == 32 + lb && payload_eq(&l, p, off as usize, &src_b, lb as usize), "C02: B's accepted message is intact at the position reported");
+                    assert!(off >= 0 && message_at(&l, p, off as usize, &src_b, lb), "C02: B's accepted message is intact at the position reported");
+                }
+                let mut in_next: i64 = 0; // bytes accepted into the next term
+                if ra > (2 * TL) as i64 {
+                    in_next += need_a as i64;
+                }
+                if rb > (2 * TL) as i64 {
+                    in_next += need_b as i64;
                 }
                 if rb2 != -9 {
                     assert!(rb2 > 0 || rb2 == -1, "C02: B's retry is accepted or told to retry again");
                     if rb2 > 0 && ra > 0 {
                         assert!(rb2 != ra, "C02: positions of different messages are distinct");
                     }
+                    if rb2 > 0 {
+                        let need_b2 = need(lb2) as i64;
+                        let (p, off) = if rb2 <= (2 * TL) as i64 { (part, rb2 - TL as i64 - need_b2) } else { (next, rb2 - 2 * TL as i64 - need_b2) };
+                        assert!(off >= 0 && message_at(&l, p, off as usize, &src_b, lb2), "C02: B's retried message is intact at the position reported");
+                        if rb2 > (2 * TL) as i64 {
+                            in_next += need_b2;
+                        }
+                    }
                 }
-                assert!(l.raw_tail_of(next) >> 32 == t.wrapping_add(1) as i64, "C02: the next term's tail belongs to term id + 1");
+                assert!(l.raw_tail_of(next) == pack_tail(t.wrapping_add(1), in_next as i32), "C02: the next term's tail covers exactly the messages accepted into it (a late rotation must not reset it)");
                 kani::cover!(ra == -1, "A told to retry");
             }
             kani::cover!(true, "[must] instance reaches the end");
